@@ -6,5 +6,8 @@ def tokOp (op : String) (a : List Int) : Option String :=
   match op, a with
   | "tf.fee", [bps, mx, pre] => some (showOpt (fee bps mx pre))
   | "tf.pre", [bps, mx, post] => some (showOpt (preFee bps mx post))
+  | "tf.mint", kind :: ob :: om :: ne :: nb :: nm :: epoch :: amt :: [] =>
+    let m : Mint := if kind = 0 then .spl else if kind = 1 then .t22 else .t22fee { olderBps := ob, olderMax := om, newerEpoch := ne, newerBps := nb, newerMax := nm }
+    some (s!"{showOpt (mintPre m epoch amt)} {showOpt (mintPost m epoch amt)} {if mintNonzero m epoch then 1 else 0} {showOpt (mintFee m epoch amt)}")
   | _, _ => none
 end Mfi.Driver
